@@ -14,6 +14,8 @@ func main() {
 		os.Exit(2)
 	}
 	switch os.Args[1] {
+	case "rwfacts":
+		os.Exit(extraCmds["rwfacts"](os.Args[2:]))
 	case "explore":
 		os.Exit(cmdExplore(os.Args[2:]))
 	case "check":
